@@ -139,6 +139,29 @@ fn dom_sample(d: &Dom, seed: &mut u64) -> Value {
     }
 }
 
+/// taint: set of oracle-request indices a value may depend on (up to 1024 requests)
+#[derive(Clone, Copy, PartialEq, Eq)]
+pub struct Tm([u64; 16]);
+impl Tm {
+    const MAX: usize = 1024;
+    fn zero() -> Tm {
+        Tm([0; 16])
+    }
+    fn or(&mut self, o: &Tm) {
+        for k in 0..16 {
+            self.0[k] |= o.0[k];
+        }
+    }
+    fn set(&mut self, i: usize) {
+        if i < Self::MAX {
+            self.0[i / 64] |= 1 << (i % 64);
+        }
+    }
+    fn get(&self, i: usize) -> bool {
+        i < Self::MAX && (self.0[i / 64] >> (i % 64)) & 1 == 1
+    }
+}
+
 enum Oracle<'a> {
     /// first run: register requests, all values zero-digit
     Discover,
@@ -169,7 +192,7 @@ pub struct View {
     /// per party: (request index, value bytes) of the requests it made
     req_vals: [Vec<(usize, Vec<u8>)>; 3],
     /// taint (request index bitmask) of the messages delivered to / the output of each party
-    taint_view: [u128; 3],
+    taint_view: [Tm; 3],
     unsupported: Option<String>,
 }
 
@@ -220,23 +243,23 @@ impl Exec {
         let evs: &mut Vec<SimpleEvaluator> = &mut evs_guard;
         let n = self.nodes.len();
         let mut vals: [Vec<Option<Value>>; 3] = [Vec::with_capacity(n), Vec::with_capacity(n), Vec::with_capacity(n)];
-        let mut tnt: [Vec<u128>; 3] = [vec![], vec![], vec![]];
+        let mut tnt: [Vec<Tm>; 3] = [vec![], vec![], vec![]];
         let mut view = View {
             msgs: [vec![], vec![], vec![]],
             out: [None, None, None],
             req_vals: [vec![], vec![], vec![]],
-            taint_view: [0; 3],
+            taint_view: [Tm::zero(); 3],
             unsupported: None,
         };
         let mut next_input = 0usize;
         for (id, op) in self.ops.iter().enumerate() {
             for p in 0..3usize {
-                let mut t_here: u128 = 0;
+                let mut t_here = Tm::zero();
                 let mut dvals = vec![];
                 let mut ok = true;
                 for d in &self.deps[id] {
                     if taint {
-                        t_here |= tnt[p][*d];
+                        t_here.or(&tnt[p][*d]);
                     }
                     match &vals[p][*d] {
                         Some(v) => dvals.push(v.clone()),
@@ -272,7 +295,10 @@ impl Exec {
                         let val = match oracle {
                             Oracle::Sampled(seed) => {
                                 let mut s = *seed ^ hash_key(&key).rotate_left(23);
-                                Some((usize::MAX, dom_sample(&dom, &mut s)))
+                                // the index assigned by an earlier discovery run (if any) lets the
+                                // caller restrict the view to the relevant requests
+                                let idx = reqs.index.get(&key).copied().unwrap_or(usize::MAX);
+                                Some((idx, dom_sample(&dom, &mut s)))
                             }
                             _ => {
                                 let idx = match reqs.index.get(&key) {
@@ -296,8 +322,8 @@ impl Exec {
                                             Oracle::Digits(d) => d[i],
                                             _ => 0,
                                         };
-                                        if taint && i < 128 {
-                                            t_here |= 1u128 << i;
+                                        if taint {
+                                            t_here.set(i);
                                         }
                                         Some((i, dom_value(&reqs.doms[i], digit)))
                                     }
@@ -367,7 +393,7 @@ impl Exec {
                 if taint {
                     let ts = tnt[s][id];
                     tnt[r][id] = ts;
-                    view.taint_view[r] |= ts;
+                    view.taint_view[r].or(&ts);
                 }
             }
         }
@@ -378,7 +404,8 @@ impl Exec {
                 view.out[p] = Some(b);
             }
             if taint {
-                view.taint_view[p] |= tnt[p][self.out_id];
+                let to = tnt[p][self.out_id];
+                view.taint_view[p].or(&to);
             }
         }
         view
@@ -394,7 +421,7 @@ fn fnv(bytes: &[u8], h: &mut u64) {
     *h = h.wrapping_mul(0x100_0000_01b3);
 }
 
-fn view_bytes(v: &View, p: usize, rel: u128) -> Vec<u8> {
+fn view_bytes(v: &View, p: usize, rel: &Tm) -> Vec<u8> {
     let mut out = vec![];
     for (id, b) in &v.msgs[p] {
         out.extend_from_slice(&(*id as u32).to_le_bytes());
@@ -406,7 +433,7 @@ fn view_bytes(v: &View, p: usize, rel: u128) -> Vec<u8> {
     }
     out.push(0xEF);
     for (i, b) in &v.req_vals[p] {
-        if *i < 128 && (rel >> *i) & 1 == 1 {
+        if rel.get(*i) {
             out.extend_from_slice(&(*i as u16).to_le_bytes());
             out.extend_from_slice(b);
         }
@@ -651,11 +678,11 @@ pub fn oracle_exhaustive(c: &Case, max_log2: u32) -> Outcome {
     if let Some(u) = &v0.unsupported {
         return Outcome::skip("unsupported").label(format!("unsupported:{}", u));
     }
-    if reqs.doms.len() > 128 {
+    if reqs.doms.len() > Tm::MAX {
         return Outcome::skip("too-many-requests");
     }
     let rel = v0.taint_view[obs];
-    let rel_idx: Vec<usize> = (0..reqs.doms.len()).filter(|i| (rel >> i) & 1 == 1).collect();
+    let rel_idx: Vec<usize> = (0..reqs.doms.len()).filter(|i| rel.get(*i)).collect();
     let mut space: u128 = 1;
     for i in &rel_idx {
         match reqs.doms[*i].size() {
@@ -707,7 +734,7 @@ pub fn oracle_exhaustive(c: &Case, max_log2: u32) -> Outcome {
                 return Outcome::skip("unsupported").label(format!("unsupported:{}", u));
             }
             let mut h = 0xcbf2_9ce4_8422_2325u64;
-            fnv(&view_bytes(&v, obs, rel), &mut h);
+            fnv(&view_bytes(&v, obs, &rel), &mut h);
             *hist.entry(h).or_insert(0) += 1;
             runs += 1;
             t += 1;
@@ -903,11 +930,22 @@ pub fn oracle_sampled(c: &Case, n_tapes: usize, max_nodes: usize) -> Outcome {
     let pin_b = ideal_inputs(&p, &b, &mk_slots(&b));
     // the number of sampled tapes grows with the view size so that the GF(2) span test applies
     // (it needs twice (view bits + 128) samples), up to three times the base budget
+    // discovery run with taint tracking: of the observer's own oracle values only those that can
+    // (syntactically) influence what it receives or outputs are correlated with the rest of its
+    // view; the others are independent uniform coordinates and are left out (as in the exhaustive
+    // tier), which keeps the view of e.g. a sort within the sample budget of the span test
+    let rel = {
+        let v = p.exec.run([&pin_a[0], &pin_a[1], &pin_a[2]], &mut reqs, &Oracle::Discover, true);
+        if let Some(u) = &v.unsupported {
+            return Outcome::skip("unsupported").label(format!("unsupported:{}", u));
+        }
+        v.taint_view[obs]
+    };
     let n_tapes = {
         let v = p.exec.run([&pin_a[0], &pin_a[1], &pin_a[2]], &mut reqs, &Oracle::Sampled(1), false);
         let bytes: usize = v.msgs[obs].iter().map(|(_, b)| b.len()).sum::<usize>()
             + v.out[obs].as_ref().map(|b| b.len()).unwrap_or(0)
-            + v.req_vals[obs].iter().map(|(_, b)| b.len()).sum::<usize>();
+            + v.req_vals[obs].iter().filter(|(i, _)| *i == usize::MAX || rel.get(*i)).map(|(_, b)| b.len()).sum::<usize>();
         n_tapes.max(2 * (bytes * 8 + 128)).min(3 * n_tapes)
     };
     // collect views
@@ -930,8 +968,10 @@ pub fn oracle_sampled(c: &Case, n_tapes: usize, max_nodes: usize) -> Outcome {
             }
             // the observer's own oracle values (masks it can compute, its own random draws)
             let mut own = vec![];
-            for (_, b) in &v.req_vals[obs] {
-                own.extend_from_slice(b);
+            for (i, b) in &v.req_vals[obs] {
+                if *i == usize::MAX || rel.get(*i) {
+                    own.extend_from_slice(b);
+                }
             }
             full.borrow_mut().push(own);
             out.push(bytes);
